@@ -34,6 +34,38 @@ let show_bb (((a, b), c), d) = Printf.sprintf "%d,%d,%d,%d" (int_of_z a) (int_of
 let parse_bb f = match List.map int_of_string (String.split_on_char ',' f) with
   | [a; b; c; d] -> (((z_of_int a, z_of_int b), z_of_int c), z_of_int d) | _ -> failwith "bb"
 
+
+(* ---- C07 front-end histories *)
+let rec int_of_nat = function O -> 0 | S n -> 1 + int_of_nat n
+let parse_pairs f =
+  List.map (fun kv -> match String.split_on_char ':' kv with
+      | [k; v] -> (cs k, cs v) | _ -> failwith "pair") (split_on ',' f)
+let parse_ttbl f =
+  List.map (fun e -> match String.split_on_char ':' e with
+      | [i; c; "O"; o] -> ((cs i, cs c), TOk (cs o))
+      | [i; c; "E"; p; d; g] -> ((cs i, cs c), TErr (cs p, cs d, cs g))
+      | _ -> failwith "ttbl") (split_on ',' f)
+let parse_hist f =
+  List.map (fun e -> match String.split_on_char ':' e with
+      | ["S"; i; c] -> RStr (cs i, cs c)
+      | ["M"; i; c] -> RStream (cs i, cs c)
+      | ["C"; fl; o; si; c] -> RCli (cs fl, cs o, cs si, cs c)
+      | ["H"; i; m] -> RHttp (cs i, m = "1")
+      | _ -> failwith "request") (split_on ',' f)
+let show_obs = function
+  | OLibOk o -> "LO:" ^ hs o
+  | OLibErr (d, g) -> "LE:" ^ hs d ^ ":" ^ hs g
+  | OStream (ok, b, d, g) -> if ok then "SO:" ^ hs b else "SE:" ^ hs b ^ ":" ^ hs d ^ ":" ^ hs g
+  | OCli (e, o, r) -> Printf.sprintf "C:%d:%s:%s" (int_of_nat e) (hs o) (hs r)
+  | OHttp (s, ct, b) -> Printf.sprintf "H:%d:%s:%s" (int_of_nat s) (hs ct) (hs b)
+let front id = function
+  | [ttbl; cf; ct; canon; same; enoent; init; hist; probe] ->
+    let (obs, files) = run_front (parse_ttbl ttbl) (cs cf) (cs ct) (parse_pairs canon) (parse_pairs same) (cs enoent)
+        (parse_pairs init) (parse_hist hist) (List.map cs (split_on ',' probe)) in
+    Printf.printf "%s\tOK\t%s\t%s\n" id (String.concat ";" (List.map show_obs obs))
+      (String.concat "," (List.map (function Some b -> "=" ^ hs b | None -> "-") files))
+  | _ -> Printf.printf "%s\tSKIP\n" id
+
 let res_line id r show = match r with
   | Ok v -> Printf.printf "%s\tOK\t%s\n" id (show v)
   | Err k -> Printf.printf "%s\tERR\t%s\n" id (implode (errkind_name k))
@@ -71,6 +103,7 @@ let handle id kind fields =
      | None -> Printf.printf "%s\tNONE\n" id)
   | "connect", [n; a; o] ->
     res_line id (run_connect (cs n) (parse_attrs a) (parse_els o)) (fun (nm, at) -> hs nm ^ "\t" ^ show_attrs at)
+  | "front", fs -> front id fs
   | _ -> Printf.printf "%s\tSKIP\n" id
 
 let () =
